@@ -250,6 +250,9 @@ def _guard(what, fn, sig):
         where = next((f"{os.path.basename(f.filename)}:{f.name}" for f in reversed(tb)
                       if "/repo/spatialpandas/" in f.filename), "?")
         sig["where"] = where
+        inner = tb[-1].filename if tb else ""
+        sig["raised_in_dask_or_pandas"] = ("/site-packages/pandas/" in inner
+                                           or "/site-packages/dask/" in inner)
         raise Bad(f"exception@{what}@{where}",
                   f"{what} raised {type(e).__name__}: {str(e)[:240]} (in {where})") from None
 
